@@ -43,7 +43,7 @@ type C19Case struct {
 }
 
 var c19Ops = []string{"authorize", "authorize", "authorize-failing", "query", "string", "code", "getblockid", "createblock", "append", "seal", "serialize", "revocation",
-	"parse-fact", "parse-rule", "parse-check", "verify"}
+	"parse-fact", "parse-rule", "parse-check", "parse-invalid", "verify"}
 
 var c19Texts = struct{ facts, rules, checks []string }{
 	facts:  []string{`right("file1", "read")`, `user(42)`, `resource("a", [1, 2, 3], hex:00ff, true)`, `time(2023-01-02T03:04:05Z)`},
@@ -192,6 +192,16 @@ func (s *c19Shared) runOp(tok *biscuit.Biscuit, g, i int, op C19Op) string {
 	case "parse-check":
 		c, err := s.p.Check(c19Texts.checks[op.Arg%len(c19Texts.checks)], nil)
 		return fmt.Sprintf("parse-check:%v|%v", c, err)
+	case "parse-invalid":
+		// a text the parser must refuse (unbound parameter, malformed literal, variable in a set inside
+		// an expression): its error is its own, the other goroutines' texts are parsed as if alone
+		bad := []string{`check if resource($r), $r == {nobody_bound_this}`, `check if time($t), $t <= 2030-13-01T00:00:00Z`, `check if user($u), [$u].contains(1)`, `h($x) <- q($x), $x == hex:abc`}
+		c, err := s.p.Check(bad[op.Arg%3], nil)
+		if op.Arg%4 == 3 {
+			r, err2 := s.p.Rule(bad[3], nil)
+			return fmt.Sprintf("parse-invalid:%v|%v", r, err2 != nil)
+		}
+		return fmt.Sprintf("parse-invalid:%v|%v", c, err != nil)
 	}
 	return "?"
 }
